@@ -198,6 +198,8 @@ class Prop(PropBase):
             shp.append(np.shape(P.argmin(axis=ax)) == np.shape(ref.argmin(axis=ax)) and np.shape(P.argmax(axis=ax)) == np.shape(ref.argmax(axis=ax)))
             shp.append(np.shape(P.sort(axis=ax)) == np.shape(np.sort(ref, axis=ax)) and np.shape(P.argsort(axis=ax)) == np.shape(np.argsort(ref, axis=ax)))
             shp.append(np.shape(P.min()) == () and np.shape(P.max()) == () and P.min() == P.ravel().min(axis=0))
+            # default axis of sort / argsort is the last one (as for NumPy arrays)
+            shp.append(bool(np.array_equal(P.argsort(), P.argsort(axis=-1)) and np.all(P.sort() == P.sort(axis=-1))))
             out["shapes_ok"] = bool(all(shp))
         except Exception as e:
             out["err"] = err_name(e)
